@@ -253,10 +253,18 @@ func (g *G) Bundle(nFiles, nTmpl int) *Program {
 	}
 	var ij *ref.Value
 	if g.O.IJ {
-		g.IJTy = []Field{{"user", TStr}, {"count", TInt}}
+		g.IJTy = []Field{{"user", TStr}, {"count", TInt}, {"nums", TList(TInt)}, {"names", TList(TStr)}}
 		v := ref.Value{K: ref.KMap, ID: 99, M: map[string]ref.Value{}}
 		v.Set("user", g.Data(TStr, &nextID))
 		v.Set("count", g.Data(TInt, &nextID))
+		nums := ref.Value{K: ref.KList, ID: 97}
+		names := ref.Value{K: ref.KList, ID: 98}
+		for k := 0; k < 4; k++ {
+			nums.L = append(nums.L, ref.Int(int64(10*k+g.R.Intn(10))))
+			names.L = append(names.L, ref.Str(fmt.Sprintf("n%d", k)))
+		}
+		v.Set("nums", nums)
+		v.Set("names", names)
 		ij = &v
 	}
 	for i := 0; i < nFiles; i++ {
